@@ -97,6 +97,9 @@ def declare(reg):
             "next-uid": "self.next_uid >= 1 and forall(lambda i: implies(0 <= i and i < len(self.uids), self.uids[i] < self.next_uid))",
             "idx-keys": "index_of(self._msg_key_to_idx, self.msg_keys)",
             "idx-uids": "index_of(self._uid_to_idx, self.uids)",
+            # distinct selected sessions are distinct handler objects with distinct connections
+            "clients-injective": "forall(lambda p, q: implies(p in self.clients and q in self.clients and p != q, "
+                                 "get(self.clients, p) != get(self.clients, q) and get(self.clients, p).client != get(self.clients, q).client), 'str', 'str')",
             # Inv.5 (first part): sequences mention only messages of the mailbox
             "seq-keys-exist": "forall(lambda s, k: implies(s in self.sequences and k in get(self.sequences, s), k in self.msg_keys), 'str', 'int')",
         },
